@@ -297,6 +297,13 @@ func (m *Mutex) TryLock() bool {
 
 func (m *Mutex) Unlock() {
 	if s := Sched; s != nil {
+		// Unlocking an unlocked mutex is a fatal error that takes the process down without
+		// unwinding; under the scheduler it becomes an ordinary panic so that the execution is
+		// reported (as a crash of the library goroutine) instead of killing the explorer.
+		if m.mu.TryLock() {
+			m.mu.Unlock()
+			panic("fatal error: sync: unlock of unlocked mutex")
+		}
 		s.Unlocked(unsafe.Pointer(m))
 	}
 	m.mu.Unlock()
